@@ -10,6 +10,9 @@ Facet 1 (affine law).  TLC enumerates the Gaussian lattice (four input forms x s
   object's OWN log-density (TLC's precision, cross-checked with the quadratic form of logpdf by polarisation).
 Facet 2 (wiring).  For the univariate families TLC emits the base request (generator, arguments, size) and the exact
   expected result for scripted base values; stub generators / recording scipy.stats .rvs compare.
+Facet 4 (Reassign).  One object; TLC explores Evaluate / Assign(unit) in the cyclic orders of the units of every start
+  configuration of facets 1 and 2 and emits the expected case after every assignment; the replayer assigns through the
+  public attributes and repeats the observation of facet 1 / 2 on the SAME object (cold, warm, after each assignment).
 Facet 3 (streams).  TLC explores the stream state machine and emits behaviours; each is executed on real
   distributions with real RandomState / Generator objects: global state digests before/after, equal generator
   states => equal draws, return types, conditional distributions refuse.
@@ -26,7 +29,12 @@ META = {
              "function of the given generator's state, return shapes, conditional => error) on all behaviours up to "
              "the bounded length; every emitted configuration / behaviour is replayed on the real distributions with "
              "stub and real generators, the affine read-off and the wiring tables both with a generator given and with "
-             "none (numpy's module-level functions scripted)."),
+             "none (numpy's module-level functions scripted). Facet 4 (Reassign: Evaluate / Assign(unit) on ONE object, invariant "
+             "ReSampFresh, deviation stale_after_assign refuted): every parameter of one univariate family object, mean and "
+             "matrix-valued input (other scaling, other triangle) of one Gaussian / Lognormal, mean and precision of one GMRF are "
+             "replaced through the public attributes, cold / warm / sampling after each assignment; base request, result and "
+             "affine law must be those of a freshly built object with the current parameters. scipy-based families are observed "
+             "at the rvs method of the scipy distribution class (module function, frozen and kept frozen objects alike)."),
     "note": ("No statistics: the law of numpy/scipy base generators is trusted; ModifiedHalfNormal acceptance envelopes "
              "are not modelled (parameter wiring and stream behaviour only). Bounded sizes (Gaussian dim <= 3 with "
              "MIN_DIM_SPARSE lowered to 2, plus diagonal forms at the real threshold 75/76; GMRF n <= 6/8 in 1-D, "
@@ -371,33 +379,42 @@ def run_gauss(ctx, c, Ns=(1, 3)):
                 ctx.mismatch("construct/" + sig0, c, "documented input form cannot be constructed: %r" % (e,))
                 continue
             ctx.case(("gauss", sig0), facet="affine_gaussian")
-            # the precision of the object's own density
-            if c["wrap"] == "lognormal":
-                def logdens(y, d=dist):
-                    return float(np.ravel(d.logpdf(np.exp(y)))[0]) + float(np.sum(y))
-            else:
-                logdens = gaussian_logdens(dist)
-            with quiet():
-                P_own = own_precision(logdens, mean, dim)
-            if not np.allclose(P_own, P, rtol=1e-7, atol=1e-9 * max(1.0, np.abs(P).max())):
-                ctx.mismatch("density/" + sig0, c, "quadratic form of the object's own log-density is not the precision "
-                             "the specification assigns to this input", P, P_own)
-                P_use = P_own      # judge the sampler against the object's own density
-            else:
-                P_use = P
-            for N in Ns:
-                sig = gauss_sig(c, N, fmt)
-                tf = np.log if c["wrap"] == "lognormal" else None
-                for use_global in (False, True):      # generator given / not given (the default code path)
-                    sg = sig + ("/rng=none" if use_global else "")
-                    got = read_affine(ctx, sg, c, dist, N, tf, use_global=use_global)
-                    if got is None:
-                        continue
-                    ok = check_law(ctx, sg, c, mean, P_use, True, got, 1e-9)
-                    if ok and c["exact"] and got[1].shape == (dim, dim):
-                        Ls = fmat(c["L"])
-                        if not np.allclose(got[1], Ls, rtol=1e-9, atol=1e-12):
-                            ctx.mismatch("exact/" + sg, c, "draw is not mean + sqrtprec^-1 e (docstring of Gaussian._sample)", Ls, got[1])
+            observe_gauss(ctx, c, dist, fmt, Ns)
+
+
+def observe_gauss(ctx, c, dist, fmt, Ns, tag="", globals_too=True):
+    """affine read-off of one real Gaussian / Lognormal object against the case c (tag: history of the object, Reassign facet)"""
+    dim = c["dim"]
+    P = fmat(c["prec"])
+    mean = fvec(c["mean"])
+    sig0 = gauss_sig(c, fmt=fmt) + tag
+    # the precision of the object's own density
+    if c["wrap"] == "lognormal":
+        def logdens(y, d=dist):
+            return float(np.ravel(d.logpdf(np.exp(y)))[0]) + float(np.sum(y))
+    else:
+        logdens = gaussian_logdens(dist)
+    with quiet():
+        P_own = own_precision(logdens, mean, dim)
+    if not np.allclose(P_own, P, rtol=1e-7, atol=1e-9 * max(1.0, np.abs(P).max())):
+        ctx.mismatch("density/" + sig0, c, "quadratic form of the object's own log-density is not the precision "
+                     "the specification assigns to this input", P, P_own)
+        P_use = P_own      # judge the sampler against the object's own density
+    else:
+        P_use = P
+    for N in Ns:
+        sig = gauss_sig(c, N, fmt) + tag
+        tf = np.log if c["wrap"] == "lognormal" else None
+        for use_global in ((False, True) if globals_too else (False,)):      # generator given / not given (the default code path)
+            sg = sig + ("/rng=none" if use_global else "")
+            got = read_affine(ctx, sg, c, dist, N, tf, use_global=use_global)
+            if got is None:
+                continue
+            ok = check_law(ctx, sg, c, mean, P_use, True, got, 1e-9)
+            if ok and c["exact"] and got[1].shape == (dim, dim):
+                Ls = fmat(c["L"])
+                if not np.allclose(got[1], Ls, rtol=1e-9, atol=1e-12):
+                    ctx.mismatch("exact/" + sg, c, "draw is not mean + sqrtprec^-1 e (docstring of Gaussian._sample)", Ls, got[1])
 
 
 def run_bigdiag(ctx, c, Ns=(1, 2)):
@@ -514,34 +531,60 @@ def _tokens_for(shape, Z, N, dim):
     return None, None
 
 
-def run_wiring(ctx, c, use_global=False):
+def run_wiring(ctx, c, use_global=False, dist=None, tag=""):
     """Wiring facet of one case; an exception raised inside the library while constructing / sampling a documented
-    configuration is reported as a mismatch (scripted-generator and harness failures stay machinery errors)."""
+    configuration is reported as a mismatch (scripted-generator and harness failures stay machinery errors).
+    dist: an existing object that must now sample like a freshly built object of configuration c (Reassign facet);
+    tag: suffix of the signatures naming the history of that object."""
     import traceback
     from cuqiverif.script_rng import ScriptError
     from cuqiverif.core import MachineryError
     try:
-        return _run_wiring(ctx, c, use_global)
+        return _run_wiring(ctx, c, use_global, dist, tag)
     except (ScriptError, MachineryError):
         raise
     except Exception as e:
         frames = traceback.extract_tb(e.__traceback__)
         if not any("/cuqi/" in f.filename and "cuqiverif" not in f.filename for f in frames):
             raise
-        ctx.mismatch("wiring_raises/" + wiring_sig(c) + ("/rng=none" if use_global else ""), c,
+        ctx.mismatch("wiring_raises/" + wiring_sig(c) + tag + ("/rng=none" if use_global else ""), c,
                      "constructing / sampling a documented configuration raises: %r" % (e,))
 
 
-def _run_wiring(ctx, c, use_global=False):
+@contextlib.contextmanager
+def scipy_rvs_recorder(target, on_call):
+    """Every draw scipy makes for the family of `target` (scipy.stats.<name>) passes through the `rvs` method of its class -
+    scipy.stats.<name>.rvs(...), a frozen scipy.stats.<name>(...).rvs(...) (also one kept between calls), any instance of the
+    class.  The method is replaced on the class that defines it (in this process, restored afterwards); draws of other
+    families pass through."""
+    cls = type(target)
+    owner = next((k for k in cls.__mro__ if "rvs" in k.__dict__), None)
+    if owner is None:
+        machinery("scipy.stats distribution class %s has no rvs method" % cls.__name__)
+    orig = owner.__dict__["rvs"]
+
+    def rvs(self_, *a, **k):
+        if not isinstance(self_, cls):
+            return orig(self_, *a, **k)
+        return on_call(*a, **k)
+    owner.rvs = rvs
+    try:
+        yield
+    finally:
+        owner.rvs = orig
+
+
+def _run_wiring(ctx, c, use_global=False, dist=None, tag=""):
     """use_global: sample(N) without a generator - the module-level numpy.random functions are scripted (numpy families),
     scipy's .rvs / the rejection sampler are recorded as with a generator (their random_state / rng is then not judged)."""
     import scipy.stats as sps
     from cuqiverif.script_rng import StubRNG, ScriptError, Stream, scripted
     N, dim, fam, gen = c["N"], c["dim"], c["family"], c["gen"]
-    sig = wiring_sig(c) + ("/rng=none" if use_global else "")
-    ctx.case(("wiring", sig), facet="wiring")
-    with quiet():
-        dist = build_family(c)
+    sig = wiring_sig(c) + tag + ("/rng=none" if use_global else "")
+    ctx.case(("wiring", sig), facet="wiring_reassign" if tag else "wiring")
+    if dist is None:
+        with quiet():
+            dist = build_family(c)
     Z = fmat(c["Z"])
     expected = fmat(c["result"])
     spec_args = {a["name"]: fvec(a["val"]) for a in c["args"]}
@@ -618,22 +661,37 @@ def _run_wiring(ctx, c, use_global=False):
                 raise ScriptError("size %r requested, expected (%d, %d)" % (shape, N, dim))
             got["_layout"], got["_shape"] = layout, shape
             return t
-        target.rvs = rvs
         g0 = _digest()
         try:
-            with quiet():
+            with scipy_rvs_recorder(target, rvs), quiet():
                 s = dist.sample(N) if use_global else dist.sample(N, rng=sentinel)
         except ScriptError as e:
             ctx.mismatch("wiring_request/" + sig, c, "base draws requested differ from the specification: %s" % e,
                          {"gen": gen, "size": [N, dim]}, [{k: v for k, v in x.items() if k != "random_state"} for x in rec["calls"]])
             return
-        finally:
-            del target.rvs
         if not use_global and _digest() != g0:
             ctx.mismatch("wiring_global/" + sig, c, "global numpy random state consumed although rng was given")
+        if not rec["calls"]:
+            # no draw passed through scipy.stats.<name>: the family draws in another way.  Judge by behaviour: with a seeded
+            # generator the draws must be those of scipy's generator for the specification's arguments, bit for bit; a
+            # different (possibly valid) algorithm cannot be read off without statistics: machinery failure, not a violation
+            if use_global:
+                return
+            shapes = [x.strip() for x in (target.shapes or "").split(",") if x.strip()]
+            pos = [spec_args[nm] for nm in shapes]
+            ref = target.rvs(*pos, loc=spec_args.get("loc", 0.0), scale=spec_args.get("scale", 1.0), size=(N, dim),
+                             random_state=np.random.RandomState(12345)).T
+            with quiet():
+                got_s = as_matrix(dist.sample(N, rng=np.random.RandomState(12345)), dim, N)
+            if got_s is not None and np.array_equal(got_s, ref):
+                ctx.observations.setdefault("scipy_family_judged_by_seeded_draws", {})[fam] = True
+                return
+            machinery("%s.sample made no call of scipy.stats.%s (rvs of the class) and its seeded draws are not scipy's: "
+                      "the base request cannot be observed" % (fam, name))
         if len(rec["calls"]) != 1:
-            # the family does not go through scipy.stats.<name>.rvs: cannot be read off this way
-            machinery("%s.sample made %d calls of scipy.stats.%s.rvs (expected 1)" % (fam, len(rec["calls"]), name))
+            ctx.mismatch("wiring_request/" + sig, c, "number of base requests differs from the specification (one "
+                         "scipy.stats.%s draw of size (N, dim))" % name, 1, len(rec["calls"]))
+            return
         got = rec["calls"][0]
         if not use_global and (got.get("random_state") is not sentinel or _rs_digest(sentinel) != st0):
             ctx.mismatch("wiring_rng/" + sig, c, "the generator given as rng is not the one handed to the base generator",
@@ -687,6 +745,181 @@ def _run_wiring(ctx, c, use_global=False):
     if S is None or not np.allclose(S, expected, rtol=1e-12, atol=1e-14):
         ctx.mismatch("wiring_result/" + sig, c, "result is not the transformed base array of the specification "
                      "(component i of draw j = base value (j, i), transformed)", expected, None if S is None else S)
+
+
+# ----------------------------------------------------------------------------------------------- facet 4 (Reassign)
+RE_MODES = ("cold", "warm", "each")     # A* E (assign first, sample later) / E A* E / (E A)* E of Sampling.tla's Reassign facet
+
+
+def _re_sequences(rc, seen, key):
+    L = len(rc["trail"])
+    order = tuple(rc["order"])
+    out = []
+    for mode in RE_MODES:
+        for n in ((L,) if mode == "each" else range(2 if mode == "warm" else 1, L + 1)):
+            k = (key, mode, order[:n])
+            if k not in seen:
+                seen.add(k)
+                out.append((mode, n))
+    return out
+
+
+def _re_tag(mode, rc, n):
+    return "/reassign=%s:%s" % (mode, "+".join("+".join(t["assign"]) for t in rc["trail"][:n]))
+
+
+def _re_refused(ctx, what, e):
+    ob = ctx.observations.setdefault("reassign_refused", {})
+    ob[what] = ob.get(what, 0) + 1
+    ctx.observations.setdefault("reassign_refused_example", "%s: %r" % (what, e))
+
+
+def _re_warm(dist, x):
+    from cuqiverif import families_common as fc
+    fc.warm_up(dist, x)
+
+
+def _re_step(rc, t):
+    return dict(t["expect"], kind="reassign_step", rc=rc)      # a replay file re-executes the whole behaviour
+
+
+def reassign_wiring(ctx, rc, seen):
+    frm = rc["from"]
+    nseq = 0
+    for mode, n in _re_sequences(rc, seen, ("wiring", wiring_sig(frm))):
+        with quiet():
+            dist = build_family(frm)
+        if mode != "cold":
+            _re_warm(dist, np.full(frm["dim"], 0.5))
+        for i, t in enumerate(rc["trail"][:n]):
+            exp = _re_step(rc, t)
+            name = t["assign"][0]
+            p = [q for q in exp["params"] if q["name"] == name][0]
+            v = fvec(p["val"])
+            try:
+                setattr(dist, name, float(v[0]) if p["passed"] == "scalar" else v)
+            except Exception as e:
+                _re_refused(ctx, "%s.%s" % (frm["family"], name), e)
+                break
+            if mode == "each" or i == n - 1:
+                tag = _re_tag(mode, rc, i + 1)
+                run_wiring(ctx, exp, dist=dist, tag=tag)
+                run_wiring(ctx, exp, use_global=True, dist=dist, tag=tag)
+        else:
+            nseq += 1
+    return nseq
+
+
+def reassign_gauss(ctx, rc, seen):
+    frm = rc["from"]
+    dim = frm["dim"]
+    if frm["wrap"] == "lognormal" and frm["mform"] == "scalar" and frm["shape"] == "scalar" and dim > 1:
+        return 0
+    nseq = 0
+    with min_dim_sparse(2):
+        for fmt, mean_arg, data, kw in gauss_inputs(frm):
+            for mode, n in _re_sequences(rc, seen, ("gauss", gauss_sig(frm, fmt=fmt))):
+                try:
+                    with quiet():
+                        dist = build_gauss(frm, mean_arg, data, kw)
+                except Exception:
+                    break                       # reported by facet 1
+                if mode != "cold":
+                    _re_warm(dist, fvec(frm["mean"]) + (1.0 if frm["wrap"] == "lognormal" else 0.0) + 0.25)
+                for i, t in enumerate(rc["trail"][:n]):
+                    exp = _re_step(rc, t)
+                    name = t["assign"][0]
+                    new = [g for g in gauss_inputs(exp) if g[0] == fmt][0]
+                    try:
+                        with quiet():
+                            setattr(dist, name, new[1] if name == "mean" else new[2])
+                    except Exception as e:
+                        _re_refused(ctx, "%s.%s" % (frm["wrap"], name), e)
+                        break
+                    if mode == "each" or i == n - 1:
+                        observe_gauss(ctx, exp, dist, fmt, (2,), tag=_re_tag(mode, rc, i + 1), globals_too=(mode == "each"))
+                else:
+                    nseq += 1
+    return nseq
+
+
+def reassign_gmrf(ctx, rc, seen, skip):
+    import cuqi
+    frm = rc["from"]
+    dim, n = frm["dim"], frm["n"]
+    key0 = gmrf_key(frm)
+    if (key0, frm["wm"]) in skip:
+        return 0
+    geom = (lambda: cuqi.geometry.Continuous1D(n)) if frm["pd"] == 1 else (lambda: cuqi.geometry.Image2D((n, n)))
+
+    def build():
+        with quiet():
+            return cuqi.distribution.GMRF(np.array(frm["mean"], dtype=float), float(frm["delta"]), bc_type=frm["bc"], order=frm["order"], geometry=geom())
+    # the wrap-multiplicity variant of the periodic operator is the one of the field's own density (as in facet 1b)
+    try:
+        d0 = build()
+        with quiet():
+            P_own = own_precision(lambda x: float(np.ravel(d0.logpdf(x))[0]), np.array(frm["mean"], dtype=float), dim)
+    except Exception:
+        skip.add((key0, frm["wm"]))
+        return 0
+    P1 = float(frm["delta"]) * fmat(frm["P0"])
+    if not np.allclose(P_own, P1, rtol=1e-9, atol=1e-9 * max(1.0, np.abs(P1).max())):
+        skip.add((key0, frm["wm"]))
+        return 0
+    tol = 1e-9 if frm["bc"] == "zero" else 1e-6
+    nseq = 0
+    for mode, m in _re_sequences(rc, seen, ("gmrf", key0, frm["wm"])):
+        dist = build()
+        if mode != "cold":
+            _re_warm(dist, np.array(frm["mean"], dtype=float) + 0.5)
+        for i, t in enumerate(rc["trail"][:m]):
+            exp = _re_step(rc, t)
+            name = t["assign"][0]
+            try:
+                setattr(dist, name, np.array(exp["mean"], dtype=float) if name == "mean" else float(exp["delta"]))
+            except Exception as e:
+                _re_refused(ctx, "GMRF.%s" % name, e)
+                break
+            if mode == "each" or i == m - 1:
+                tag = _re_tag(mode, rc, i + 1)
+                key = gmrf_key(exp)
+                mean = np.array(exp["mean"], dtype=float)
+                P = float(exp["delta"]) * fmat(exp["P0"])
+                ctx.case(("gmrf", key, tag), facet="affine_gmrf_reassign")
+                with quiet():
+                    P_now = own_precision(lambda x: float(np.ravel(dist.logpdf(x))[0]), mean, dim)
+                if not np.allclose(P_now, P, rtol=1e-9, atol=1e-9 * max(1.0, np.abs(P).max())):
+                    ctx.mismatch("density/" + key + tag, exp, "quadratic form of the field's own log-density is not delta D^T D "
+                                 "of its current precision parameter", P, P_now)
+                    P = P_now                   # judge the sampler against the object's own density
+                for N in (2,):
+                    for use_global in ((False, True) if mode == "each" else (False,)):
+                        sg = key + "/N=%d" % N + tag + ("/rng=none" if use_global else "")
+                        try:
+                            got = read_affine(ctx, sg, exp, dist, N, tol=tol, use_global=use_global)
+                        except NotImplementedError:
+                            got = None
+                        if got is not None:
+                            check_law(ctx, sg, exp, mean, P, exp["rank"] == dim, got, tol)
+        else:
+            nseq += 1
+    return nseq
+
+
+def run_reassign(ctx, cases):
+    seen, skip, n = set(), set(), 0
+    per = {}
+    for rc in sorted(cases, key=lambda c: json.dumps([c["sub"], c["from"], c["order"]], sort_keys=True)):
+        sub = rc["sub"]
+        k = reassign_wiring(ctx, rc, seen) if sub == "wiring" else reassign_gauss(ctx, rc, seen) if sub == "gauss" else reassign_gmrf(ctx, rc, seen, skip)
+        per[sub] = per.get(sub, 0) + k
+        n += k
+    for sub in ("wiring", "gauss", "gmrf"):
+        if not per.get(sub):
+            machinery("vacuous: no Reassign behaviour of kind %s was replayed" % sub)
+    ctx.observations["reassign_sequences_replayed"] = per
+    return n
 
 
 # ----------------------------------------------------------------------------------------------- facet 3
@@ -875,7 +1108,7 @@ def run_streams(ctx, behaviours, per_behaviour, label):
 # ------------------------------------------------------------------------------------------------- run
 EXTRA = ("DiffOps.tla",)
 
-DEVIATIONS = [("Sampling.dev.dft_on_noncirculant.cfg", "DftLaw"), ("Sampling.dev.dft_sorted_eigs.cfg", "DftLaw"),
+DEVIATIONS = [("Sampling.dev.stale_after_assign.cfg", "ReSampFresh"), ("Sampling.dev.dft_on_noncirculant.cfg", "DftLaw"), ("Sampling.dev.dft_sorted_eigs.cfg", "DftLaw"),
               ("Sampling.dev.lower_as_upper.cfg", "GaussLaw"), ("Sampling.dev.ignores_rng.cfg", "GlobalUntouched"),
               ("Sampling.dev.ignores_rng_det.cfg", "Deterministic")]
 
@@ -931,7 +1164,8 @@ def run(ctx):
     # the second stream deviation (same constant, other invariant) is run in the thorough tier only
     devs = [d for d in DEVIATIONS if thorough or d[0] != "Sampling.dev.ignores_rng_det.cfg"]
     jobs = [("Sampling.cases.%s.cfg" % ctx.tier, 8, False, "2g"), ("Sampling.stream.%s.cfg" % ctx.tier, 4, False, "2g"),
-            ("Sampling.deep.%s.cfg" % ctx.tier, 2, False, "1g")] + [(cfg, 2, True, "1g") for cfg, _ in devs]
+            ("Sampling.deep.%s.cfg" % ctx.tier, 2, False, "1g"), ("Sampling.reassign.%s.cfg" % ctx.tier, 4, False, "2g")] \
+        + [(cfg, 2, True, "1g") for cfg, _ in devs]
     results = tlc_jobs(ctx, jobs)
     try:
         _run_with_results(ctx, results, devs, thorough)
@@ -942,7 +1176,7 @@ def run(ctx):
 
 def _run_with_results(ctx, results, devs, thorough):
     from cuqiverif import tlc as _tlc
-    res, res3, res4 = results[:3]
+    res, res3, res4, res5 = results[:4]
     # ---- model checking + case emission (facets 1, 2)
     ctx.model_must_hold(res, "Sampling/cases")
     cases = res.cases
@@ -956,7 +1190,7 @@ def _run_with_results(ctx, results, devs, thorough):
         if res.ok and not kinds.get(k):
             machinery("vacuous: no %s case emitted" % k)
     # ---- named deviations: each must produce a counterexample to its invariant (non-vacuity, design-level explanation)
-    for (cfg, inv), r in zip(devs, results[3:]):
+    for (cfg, inv), r in zip(devs, results[4:]):
         _tlc.cleanup(r)
         if r.violated != inv:
             machinery("deviation run %s did not violate %s (got %r): invariant is vacuous" % (cfg, inv, r.violated))
@@ -974,6 +1208,17 @@ def _run_with_results(ctx, results, devs, thorough):
         run_wiring(ctx, c)
         run_wiring(ctx, c, use_global=True)       # no generator given: the default code path of every family
     ctx.traces += len(kinds.get("gauss", [])) + len(kinds.get("bigdiag", [])) + len(groups) + len(kinds.get("wiring", []))
+    # ---- facet 4: one object, parameters assigned through the public attributes, sampled again
+    ctx.model_must_hold(res5, "Sampling/reassign")
+    recases = [c for c in res5.cases if c.get("kind") == "reassign"]
+    _tlc.cleanup(res5)
+    if res5.ok and not recases:
+        machinery("no behaviours emitted by Sampling (Reassign facet)")
+    ctx.traces += run_reassign(ctx, recases)
+    rcs = [c for c in recases if c["sub"] == "wiring" and c["from"]["family"] == "Cauchy" and c["from"]["dim"] == 2]
+    if rcs:
+        ctx.sample({"reassign": {"order": rcs[0]["order"], "from": rcs[0]["from"]["params"],
+                                 "trail": [{"assign": t["assign"], "args": t["expect"]["args"]} for t in rcs[0]["trail"]]}})
     # ---- stream state machine
     ctx.model_must_hold(res3, "Sampling/stream")
     beh = res3.cases
@@ -1031,6 +1276,10 @@ def replay(ctx, case):
     if kind == "wiring":
         run_wiring(ctx, case)
         return run_wiring(ctx, case, use_global=True)
+    if kind in ("reassign", "reassign_step"):
+        rc = case if kind == "reassign" else case["rc"]
+        run_reassign_one = {"wiring": reassign_wiring, "gauss": reassign_gauss}.get(rc["sub"])
+        return run_reassign_one(ctx, rc, set()) if run_reassign_one else reassign_gmrf(ctx, rc, set(), set())
     if kind == "behaviour":
         makers = stream_families()
         fam = FamilyRun(case["family"], makers[case["family"]])
